@@ -303,13 +303,64 @@ def oracle_plantuml(case, o):
 
 def oracle_escape(s, e, rp):
     for what, t in (("dot_escape", e), ("dot_repr", rp)):
-        toks = D.tokenize('"' + t + '" x')
+        try:
+            toks = D.tokenize('"' + t + '" x')
+        except D.DotError as ex:
+            return "%s(%r) = %r does not stay one quoted string (%s)" % (what, s, t, ex)
         if len(toks) != 2 or toks[0][0] != "qid" or toks[1][:2] != ("id", "x"):
             return "%s(%r) = %r does not stay one quoted string" % (what, s, t)
-        f = D.parse_record("{" + t + "|y}")
+        try:
+            f = D.parse_record("{" + t + "|y}")
+        except D.DotError as ex:
+            return "%s(%r) = %r changes the structure of a record label (%s)" % (what, s, t, ex)
         if len(f) != 1 or not isinstance(f[0], list) or len(f[0]) != 2 or f[0][1] != "y":
             return "%s(%r) = %r changes the structure of a record label" % (what, s, t)
     return None
+
+
+# ------------------------------------------------------------------ the dumped object graph as a Coq term
+def cs(s):
+    """a text as a Coq string literal decoded inside Coq (elaborating long lists of N literals is slow)"""
+    return '(dec "%s")' % core.canon_text(s)
+
+
+def coq_prim(v):
+    return "(PStr %s)" % cs(v["s"]) if v["str"] else "(POther %s %s)" % (cs(v["ty"]), cs(v["s"]))
+
+
+def coq_val(v, item=False):
+    if v["t"] == "none":
+        return "INone" if item else "VNone"
+    if v["t"] == "prim":
+        return "(%s %s)" % ("IPrim" if item else "VPrim", coq_prim(v))
+    if v["t"] == "obj":
+        return "(%s %d%%nat)" % ("IObj" if item else "VObj", v["id"])
+    return "(VList %s)" % core.coq_list([coq_val(x, True) for x in v["v"]])
+
+
+def coq_store(objects):
+    objs = []
+    for o in objects:
+        attrs = ["(mkAttr %s %s %s %s %s)" % (cs(a["name"]), core.coq_bool(a["cont"]), core.coq_bool(a["mult"] in ("1", "1..*")),
+                                             core.coq_bool(a["mult"] in ("1..*", "0..*")), coq_val(a["val"])) for a in o["attrs"]]
+        objs.append("(mkObj %s %s)" % (cs(o["cls"]), core.coq_list(attrs)))
+    return core.coq_list(objs)
+
+
+WALK_IMPORTS = """From TxV Require Import Core.Base Core.Show Model.ExportDefs Gen.SrcExport Model.Export Model.ExportWalk.
+Open Scope string_scope.
+(* inverse of show_str: printable characters stand for themselves, backslash <decimal> ; for the others *)
+Fixpoint dec_go (s : string) (acc : option N) : list N :=
+  match s with
+  | EmptyString => []
+  | String a s' =>
+      let c := Ascii.N_of_ascii a in
+      match acc with
+      | None => if N.eqb c 92 then dec_go s' (Some 0%N) else c :: dec_go s' None
+      | Some n => if N.eqb c 59 then n :: dec_go s' None else dec_go s' (Some (n * 10 + (c - 48))%N)
+      end
+  end.
+Definition dec (s : string) : list N := dec_go s None."""
 
 
 def all_strings(alpha, maxlen):
@@ -321,9 +372,7 @@ def all_strings(alpha, maxlen):
     return out
 
 
-IMPORTS = """From TxV Require Import Core.Base Core.Show Model.ExportDefs Gen.SrcExport Model.Export.
-Open Scope string_scope.
-Definition esc_case (s : list N) : string := show_str (dot_escape s) ++ "|R|" ++ show_str (dot_repr_str s)."""
+ESC_DEF = """Definition esc_case (s : list N) : string := show_str (dot_escape s) ++ "|R|" ++ show_str (dot_repr_str s)."""
 
 
 def run(chk):
@@ -333,7 +382,7 @@ def run(chk):
 
     # ---- dot_escape / dot_repr on strings: implementation vs Coq model, and the property on the implementation
     strings = all_strings(CORE8, 4 if thorough else 3)
-    nrand = 1500 if thorough else 500
+    nrand = 1500 if thorough else 300
     for i in range(nrand):
         strings.append(gen_value(chk.rng.split("s%d" % i)))
     corpus = os.path.join(core.VERIF, "corpus", "C29", "strings.json")
@@ -347,20 +396,6 @@ def run(chk):
             raise RuntimeError("escape runner failed: " + o[0]["exc"])
         for s, e, rp in zip(ch, o[0]["escape"], o[0]["repr"]):
             impl[s] = (e, rp)
-    vals, errs = core.coq_eval("C29e", IMPORTS, ["esc_case %s" % core.coq_str(s) for s in strings])
-    if errs:
-        disagreements.append({"case": "coq evaluation", "model": errs[:2]})
-    for s, mv in zip(strings, vals):
-        e, rp = impl[s]
-        special = any(c in s for c in '"\\{}|<>\n?')
-        chk.count(("esc", s), nontrivial=special)
-        chk.stat("escape string: " + ("special" if special else "plain") + (", truncated" if rp.endswith("...'") else ""))
-        if mv is not None and mv != core.canon_text(e) + "|R|" + core.canon_text(rp):
-            disagreements.append({"case": {"string": s}, "impl": {"escape": e, "repr": rp}, "model": mv})
-        bad = oracle_escape(s, e, rp)
-        if bad:
-            failures.append({"case": {"kind": "escape", "string": s}, "impl": {"escape": e, "repr": rp}, "what": bad, "tags": []})
-
     # ---- whole exports
     nm, nmm = (420, 180) if thorough else (130, 60)
     cases = []
@@ -375,10 +410,19 @@ def run(chk):
     chunks = [cases[i::core.NPROC] for i in range(core.NPROC)]
     chunks = [c for c in chunks if c]
     outs = core.run_impl_parallel("c29", [{"cases": ch} for ch in chunks])
-    docs = L.Docs()
+    try:
+        docs = L.Docs()
+    except Exception as ex:     # the translator failed (already recorded by chk.prove): no template language to match against
+        docs = None
+        disagreements.append({"case": "template language", "model": "translator failed: %s" % ex})
+    walk = []
     for ch, os_ in zip(chunks, outs):
         for c, o in zip(ch, os_):
             kind = c["kind"] + ":" + c.get("mode", "")
+            if c["kind"] == "model" and c.get("mode") in ("single", "generator") and not o.get("exc") and all(
+                    x["t"] != "obj" or x["id"] >= 0 for ob in o["objects"] for a in ob["attrs"] for x in (a["val"]["v"] if a["val"]["t"] == "list" else [a["val"]])):
+                if len(walk) < (400 if thorough else 60):
+                    walk.append((c, o))
             chk.stat(kind)
             hostile = any(any(ch_ in v for ch_ in '"\\{}|<>\n') for v in c.get("values", [])) or c["kind"] == "metamodel"
             chk.count(json.dumps(c, sort_keys=True), nontrivial=hostile)
@@ -401,11 +445,38 @@ def run(chk):
             if bad:
                 failures.append({"case": c, "impl": {"text": o["text"]}, "what": bad, "tags": []})
             # the translated over-approximation really contains what the exporter wrote
-            why = docs.member(doc, o["text"])
+            why = docs.member(doc, o["text"]) if docs is not None else None
             if why:
                 disagreements.append({"case": c, "impl": {"text": o["text"]}, "model": "not in the language of Gen.SrcExport.%s: %s" % (doc, why)})
             if chk.cov["evaluations"] % 97 == 5:
                 chk.sample({"case": {k: c[k] for k in c if k != "grammar"}, "output_head": o["text"][-300:]})
+    # ---- one Coq evaluation for both correspondences: dot_escape/dot_repr on the strings, and the traversal model on
+    # the dumped object graphs (exact text of model_export for single models); interleaved so that shards are balanced
+    exprs = [("s", k, "esc_case %s" % cs(s)) for k, s in enumerate(strings)]
+    exprs += [("w", k, "show_str (export_doc %s export_header %d%%nat)" % (coq_store(o["objects"]), o["roots"][0])) for k, (c, o) in enumerate(walk)]
+    groups = [exprs[i::core.NPROC] for i in range(core.NPROC)]
+    order = [e for g in groups for e in g]
+    allvals, errs = core.coq_eval("C29", WALK_IMPORTS + "\n" + ESC_DEF, [e[2] for e in order])
+    if errs:
+        disagreements.append({"case": "coq evaluation", "model": errs[:2]})
+    vals, wvals = [None] * len(strings), [None] * len(walk)
+    for (tag, k, _), v in zip(order, allvals):
+        (vals if tag == "s" else wvals)[k] = v
+    for s, mv in zip(strings, vals):
+        e, rp = impl[s]
+        special = any(c in s for c in '"\\{}|<>\n?')
+        chk.count(("esc", s), nontrivial=special)
+        chk.stat("escape string: " + ("special" if special else "plain") + (", truncated" if rp.endswith("...'") else ""))
+        if mv is not None and mv != core.canon_text(e) + "|R|" + core.canon_text(rp):
+            disagreements.append({"case": {"string": s}, "impl": {"escape": e, "repr": rp}, "model": mv})
+        bad = oracle_escape(s, e, rp)
+        if bad:
+            failures.append({"case": {"kind": "escape", "string": s}, "impl": {"escape": e, "repr": rp}, "what": bad, "tags": []})
+    for (c, o), mv in zip(walk, wvals):
+        chk.stat("traversal model compared")
+        if mv is not None and mv != core.canon_text(o["text"]):
+            disagreements.append({"case": c, "impl": {"text": o["text"]}, "model": mv})
+    chk.cov["disagreements_checked"] = len(strings) + len(walk)
     chk.cov["rule"] = ("(1) every string over 8 characters (quote, backslash, braces, pipe, <, newline, a) up to length 3 (4 in thorough) plus random "
                        "hostile/long strings through dot_escape and dot_repr: implementation vs the Coq model, and each result re-read by an independent DOT "
                        "tokenizer and record-label parser; (2) generated models of three grammars (plain/list/mixed-list attributes, references, nesting, "
